@@ -308,3 +308,64 @@ def r6(rr, repo):
                   witness=f'{U(node)[:100]}; isinstance(.., str) handled before: {bool(pre) or guarded}', key='yaml-scalar-not-iterated')
     envs = [c for c in ast.walk(fn) if isinstance(c, ast.comprehension) and '.split(' in U(c.iter)]
     rr.ob('the environment form splits the text at commas before anything iterates it', bool(envs), mod, fn, witness=U(envs[0].iter)[:60] if envs else 'no split', key='env-split')
+
+
+LINF = 'openfilter/observability/lineage.py'
+
+
+@rule('C16.R7', "exported histograms have numeric fields whatever the metric is called: the facet builder stringifies the elements of every list except the histogram's bucket bounds and counts, and it recognises those by the "
+                "END of the flattened key ('<name>_histogram__buckets' / '__counts') - a metric name may itself contain the separator ('roi__occupancy', or characters the key normaliser turns into '_'), so "
+                "cutting the key at its FIRST separator looks at the wrong piece and the bounds and counts go out as lists of strings")
+def r7(rr, repo):
+    mod, fn = repo.find(f'{LINF}::create_openfilter_facet_with_fields')
+    loops = [n for n in walk_scope(fn) if isinstance(n, ast.For) and U(n.iter).endswith('.items()') and isinstance(n.target, ast.Tuple) and len(n.target.elts) == 2]
+    sel = []
+    for lp in loops:
+        kname = U(lp.target.elts[0])
+        for st in ast.walk(lp):
+            if not isinstance(st, ast.If):
+                continue
+            has = lambda blk, f: any(isinstance(c, ast.Call) and U(c.func) == f for b in blk for c in ast.walk(b))
+            if has(st.body, 'float') and has(st.orelse, 'str') and not has(st.orelse, 'float'):
+                sel.append((lp, kname, st, st.test, st.body))
+            elif has(st.orelse, 'float') and has(st.body, 'str') and not has(st.body, 'float') and isinstance(st.test, ast.UnaryOp) and isinstance(st.test.op, ast.Not):
+                sel.append((lp, kname, st, st.test.operand, st.orelse))      # the same decision written the other way round
+    rr.floor('tests that pick the lists kept numeric in the facet builder', len(sel), 1, mod, fn)
+    for lp, kname, st, test, numeric in sel:
+        # names derived from the key in this loop: name -> (method, args) of the call on the key that produced it
+        derived = {}
+        for a in ast.walk(lp):
+            if isinstance(a, ast.Assign) and isinstance(a.value, (ast.Call, ast.Subscript)):
+                call = a.value
+                sub = None
+                if isinstance(call, ast.Subscript):
+                    sub, call = call, call.value
+                if isinstance(call, ast.Call) and isinstance(call.func, ast.Attribute) and U(call.func.value) == kname:
+                    for t in a.targets:
+                        for nm in ([e for e in t.elts] if isinstance(t, ast.Tuple) else [t]):
+                            if isinstance(nm, ast.Name):
+                                derived[nm.id] = (call.func.attr, [U(x) for x in call.args], U(sub.slice) if sub is not None else None)
+        used = {n.id for n in ast.walk(test) if isinstance(n, ast.Name)}
+        from_key = {n: derived[n] for n in used if n in derived}
+        direct = [c for c in ast.walk(test) if isinstance(c, ast.Call) and isinstance(c.func, ast.Attribute) and U(c.func.value) == kname]
+        verdict, wit = None, U(test)[:120]
+        first_cut = [n for n, (m, args, idx) in from_key.items() if m == 'partition' or (m == 'split' and (len(args) < 2 or args[1] != '-1'))]
+        last_cut = [n for n, (m, args, idx) in from_key.items() if m in ('rpartition', 'rsplit')]
+        if first_cut or any(c.func.attr in ('partition', 'split', 'startswith', 'find', 'index') for c in direct):
+            verdict = False
+            wit = f'{wit}; {sorted(first_cut) or [U(c)[:40] for c in direct]} look at the key from its beginning / cut it at its first separator'
+        elif direct and all(c.func.attr == 'endswith' for c in direct) and not from_key:
+            sufs = [q.const_str(c.args[0]) and c.args[0].value for c in direct if c.args]
+            ok = all(isinstance(x, str) for x in sufs) and any('_histogram__buckets'.endswith(x) for x in sufs) and any('_histogram__counts'.endswith(x) for x in sufs) and \
+                all('_histogram__buckets'.endswith(x) or '_histogram__counts'.endswith(x) for x in sufs)
+            verdict = True if ok else None
+            wit = f'{wit}; suffixes tested: {sufs}'
+        elif last_cut and not direct:
+            verdict = True
+            wit = f'{wit}; {sorted(last_cut)} come from the last separator of the key'
+        if verdict is None:
+            rr.unresolved('how the facet builder tells histogram lists from other lists was not recognised', mod, st, witness=wit, key='histogram-lists-by-suffix')
+        else:
+            rr.ob("histogram bounds and counts are recognised by the end of the flattened key, for every metric name", verdict, mod, st, witness=wit, key='histogram-lists-by-suffix')
+        keep = [c for b in numeric for c in ast.walk(b) if isinstance(c, ast.IfExp) and U(c.body).startswith('float(') and 'isinstance' in U(c.test) and 'int' in U(c.test) and 'float' in U(c.test)]
+        rr.ob('in that branch every int / float element stays a number', bool(keep), mod, st, witness=U(numeric[0])[:120], key='histogram-elements-numeric')
